@@ -24,7 +24,42 @@ func isNamed(t types.Type, pkgPath, name string) bool {
 	return n != nil && n.Obj().Name() == name && n.Obj().Pkg() != nil && n.Obj().Pkg().Path() == pkgPath
 }
 
-func isInterp(t types.Type) bool { return isNamed(t, modPath+"/interp", "interp") }
+// isInterp: the interpreter struct, or a component of it: a struct type of package interp that is embedded in struct
+// interp, or an unexported one that is the type of exactly one of its fields (state of the interpreter moved into a
+// struct of its own, such as an evaluation stack, is still state of the interpreter: p.part.f is treated like p.f).
+func isInterp(t types.Type) bool {
+	if isNamed(t, modPath+"/interp", "interp") {
+		return true
+	}
+	n := named(t)
+	if n == nil || n.Obj().Pkg() == nil || n.Obj().Pkg().Path() != modPath+"/interp" {
+		return false
+	}
+	if v, ok := interpComponentMemo[n]; ok {
+		return v
+	}
+	res := false
+	if _, isStruct := n.Underlying().(*types.Struct); isStruct {
+		if io, ok := n.Obj().Pkg().Scope().Lookup("interp").(*types.TypeName); ok {
+			if st, ok := io.Type().Underlying().(*types.Struct); ok {
+				count, embedded := 0, false
+				for i := 0; i < st.NumFields(); i++ {
+					if named(st.Field(i).Type()) == n {
+						count++
+						if st.Field(i).Embedded() {
+							embedded = true
+						}
+					}
+				}
+				res = embedded || (count == 1 && !n.Obj().Exported())
+			}
+		}
+	}
+	interpComponentMemo[n] = res
+	return res
+}
+
+var interpComponentMemo = map[*types.Named]bool{}
 
 // fieldOfAddr: v is &X.f  -> (f, X)
 func fieldOfAddr(v ssa.Value) (*types.Var, ssa.Value) {
@@ -425,4 +460,70 @@ func posOr(p, fallback token.Pos) token.Pos {
 		return fallback
 	}
 	return token.Pos(1)
+}
+
+// exclusiveRegion: root plus the functions of its package that are reached only from it: every static call of such a
+// function lies in the region and the function is never used as a value. A clause of root moved out into a helper
+// of its own is still part of the region.
+func (c *Ctx) exclusiveRegion(pkgShort string, root *ssa.Function) map[*ssa.Function]bool {
+	region := map[*ssa.Function]bool{}
+	if root == nil {
+		return region
+	}
+	key := "exclusiveRegion:" + fnKey(root)
+	if r, ok := c.memo[key].(map[*ssa.Function]bool); ok {
+		return r
+	}
+	region[root] = true
+	fns := c.srcFuncs(pkgShort)
+	callers := map[*ssa.Function]map[*ssa.Function]bool{}
+	escapes := map[*ssa.Function]bool{}
+	for _, fn := range fns {
+		fn := fn
+		allInstrs(fn, func(in ssa.Instruction) {
+			var callee *ssa.Function
+			if ci, ok := in.(ssa.CallInstruction); ok {
+				callee = ci.Common().StaticCallee()
+				if callee != nil {
+					if callers[callee] == nil {
+						callers[callee] = map[*ssa.Function]bool{}
+					}
+					callers[callee][fn] = true
+				}
+			}
+			for _, op := range in.Operands(nil) {
+				if g, ok := (*op).(*ssa.Function); ok && g != callee {
+					escapes[g] = true
+				}
+				if mc, ok := (*op).(*ssa.MakeClosure); ok {
+					if g, ok := mc.Fn.(*ssa.Function); ok {
+						escapes[g] = true
+					}
+				}
+			}
+		})
+	}
+	for changed := true; changed; {
+		changed = false
+		for _, fn := range fns {
+			if region[fn] || escapes[fn] || len(callers[fn]) == 0 {
+				continue
+			}
+			if fn.Object() != nil && fn.Object().Exported() {
+				continue
+			}
+			all := true
+			for cl := range callers[fn] {
+				if !region[cl] && cl != fn {
+					all = false
+				}
+			}
+			if all {
+				region[fn] = true
+				changed = true
+			}
+		}
+	}
+	c.memo[key] = region
+	return region
 }
